@@ -61,6 +61,9 @@ f_addr_ok = z3.Function('addr_ok', StrS, z3.BoolSort())          # Api::addr_val
 f_marker_found = z3.Function('marker_found', StrS, z3.BoolSort())
 f_marker_dec = z3.Function('marker_decodes', StrS, z3.BoolSort())
 f_marker_type = z3.Function('marker_type', StrS, z3.IntSort())
+f_marker_status = z3.Function('marker_status', StrS, z3.IntSort())      # MarkerStatus: 3 = Active
+f_dec_canon = z3.Function('dec_is_canonical', StrS, z3.BoolSort())    # the text is what Decimal::to_string prints for its value
+f_uuid_nil = z3.Function('uuid_is_nil', StrS, z3.BoolSort())
 f_attr_ok = z3.Function('attr_query_ok', StrS, z3.BoolSort())    # attribute query succeeds for account
 f_has_attr = z3.Function('has_attr', StrS, StrS, z3.BoolSort())  # account holds attribute name
 f_sv_ok = z3.Function('semver_ok', StrS, z3.BoolSort())
